@@ -104,6 +104,41 @@ def digest(traj):
 
 def run_history(h, props=None):
     import numpy as np
+    if h[0] == 'nested':
+        # model B stepped from inside a system of model A must follow the trajectory it follows alone
+        _, seed, n_agents, steps = h
+        from ECAgent.Core import Model, Agent, System
+
+        def make_b():
+            b = Model(seed=seed)
+            for i in range(n_agents):
+                b.environment.add_agent(Agent(f'agent{i}', b))
+            trace = []
+
+            class Draw(System):
+                def execute(self):
+                    env = self.model.environment
+                    pick = env.get_random_agent()
+                    trace.append((self.model.systems.timestep, pick.id if pick else None, [a.id for a in env.shuffle()]))
+            b.systems.add_system(Draw('draw', b))
+            return b, trace
+        b1, t1 = make_b()
+        for _ in range(steps):
+            b1.execute()
+        b2, t2 = make_b()
+        a = Model(seed=99)
+
+        class Driver(System):
+            def execute(self):
+                b2.execute()
+        a.systems.add_system(Driver('driver', a))
+        for _ in range(steps):
+            a.execute()
+        if t1 != t2 or b1.systems.timestep != b2.systems.timestep:
+            return [('C07', f'seed {seed}: model stepped from inside another model\'s system recorded {len(t2)} steps '
+                            f'(timestep {b2.systems.timestep}), alone {len(t1)} steps (timestep {b1.systems.timestep}); '
+                            f'first difference at {next((k for k, (x, y) in enumerate(zip(t1, t2)) if x != y), min(len(t1), len(t2)))}')]
+        return []
     if h[0] == 'batchdet':
         _, seed, n_agents, steps, procs = h
         try:
@@ -153,6 +188,8 @@ def histories(seed, budget, prop='C07'):
     for s_ in (0, 7):
         yield ('batchdet', s_, 4, 3, 1)
     yield ('batchdet', 11, 5, 2, 2)
+    for s_ in (7, 0):
+        yield ('nested', s_, 4, 5)
     for kind in ('plain', 'grid', 'space'):
         for s in (0, 1, 30):
             for tsize in (0, 1, 2):
